@@ -145,12 +145,19 @@ _real_inverse = Affine2D.inverse
 _real_check_overflows = P.PaintRadialGradient.check_overflows
 
 
+INVERSES = []  # (M, M^-1) pairs handed out on the current path (harnesses may use them as witnesses)
+
+
 def stub_inverse(self):
     """Contract: M·M^-1 = I (six fresh reals; no division reaches the solver).
     Valid for non-degenerate M, which the harness assumes (|det| >= detmin)."""
     if not any(isinstance(v, core.SymNum) for v in self):
         return _real_inverse(self)
+    for M, Mi in INVERSES:
+        if all(core.as_term(x).get_id() == core.as_term(y).get_id() for x, y in zip(M, self)):
+            return Mi
     inv = Affine2D(*[core.fresh_real("inv") for _ in range(6)])
+    INVERSES.append((self, inv))
     c = core.ctx()
     for got, want in zip(ps.mul(tuple(self), tuple(inv)), ps.IDENT):
         c.add(core.as_term(got) == core.as_term(want), definitional=True)
@@ -161,6 +168,27 @@ def stub_transformed(transform, target):
     """Contract proved by job 'transformed' (A1): the emitted chain denotes `transform`
     within 2^-14. Replaced by an opaque node denoting exactly `transform`."""
     return P.PaintTransform(paint=target, transform=tuple(transform))
+
+
+def stub_decompose_uniform(transform):
+    """Contract of paint._decompose_uniform_transform, discharged by C16 job
+    'radial.apply_transform' (residual ∘ uniform == original affine; uniform part is a
+    similarity (s,0,0,±s,tx,ty) with s > 0): fresh values constrained by exactly that."""
+    if not any(isinstance(v, core.SymNum) for v in transform):
+        return P._decompose_uniform_transform.__wrapped__(transform) if hasattr(P._decompose_uniform_transform, "__wrapped__") else _REAL_DECOMPOSE_UNIFORM(transform)
+    s = core.fresh_real("us")
+    c = core.ctx()
+    c.add(s.t > 0, definitional=True)
+    neg = bool(core.SymBool(core.as_term(transform.d) < 0))
+    tx, ty = core.fresh_real("utx"), core.fresh_real("uty")
+    U = Affine2D(s, 0, 0, -s if neg else s, tx, ty)
+    rem = Affine2D(*[core.fresh_real("urem") for _ in range(4)], 0, 0)
+    for got, want in zip(ps.mul(tuple(rem), tuple(U)), tuple(transform)):
+        c.add(core.as_term(got) == core.as_term(want), definitional=True)
+    return U, rem
+
+
+_REAL_DECOMPOSE_UNIFORM = P._decompose_uniform_transform
 
 
 class Recorder:
